@@ -38,17 +38,79 @@ theorem rulesNonEmpty_eff {κ : Type} (h2 : fx.f2 = true) {tbl : Tbl} {d : AList
     (h : rulesNonEmpty fx tbl d = true) : rulesNonEmpty fx (eff tbl d) d = true := by
   rw [rulesNonEmpty_restrict h2 (covers_slotTys d)]; exact h
 
+theorem expand_restrict (h2 : fx.f2 = true) {ts : List Ty} {tbl : Tbl} (f : ν → Nat → ν)
+    {e : Sym × ν} (h : covered ts e.1) : expand fx (restrict ts tbl) f e = expand fx tbl f e := by
+  unfold expand
+  rw [slot?_restrict h2 h]
+
+theorem flatMap_congr_mem {α β : Type} {f g : α → List β} {l : List α} (h : ∀ a ∈ l, f a = g a) :
+    l.flatMap f = l.flatMap g := by
+  induction l with
+  | nil => rfl
+  | cons a r ih =>
+    rw [List.flatMap_cons, List.flatMap_cons, h a (by simp), ih (fun a' ha' => h a' (by simp [ha']))]
+
 /-- row level: in a well-formed grammar no insertion overwrites -/
 theorem rows_wf {κ : Type} [DecidableEq κ] (h2 : fx.f2 = true) (h3 : fx.f3 = true) (tbl : Tbl)
     (f : ν → Nat → ν) (d : AList κ (AList Sym ν)) (h : grammarWF tbl d = true) (nt : κ)
     (row : AList Sym ν) (hl : AList.lookup nt d = some row) :
-    instRow fx tbl f row = row.flatMap (expand fx (eff tbl d) f) ∧
+    instRow fx tbl f row = row.flatMap (expand fx tbl f) ∧
       (AList.keys (instRow fx tbl f row)).Nodup := by
   have hrow := rulesOK_row (rulesOK_of_grammarWF h2 h3 h) hl
   have hc : ∀ P ∈ AList.keys row, covered (slotTys d) P :=
     covers_slotTys d (nt, row) (AList.lookup_some_mem hl)
   rw [← instRow_restrict h2 f hc, instRow_eq_flatMap hrow]
-  exact ⟨rfl, keys_flatMap_nodup hrow⟩
+  refine ⟨flatMap_congr_mem ?_, keys_flatMap_nodup hrow⟩
+  intro e he
+  exact expand_restrict h2 f (hc e.1 (List.mem_map.mpr ⟨e, he, rfl⟩))
+
+/-! ### a grammar without slot of a table type -/
+
+theorem instRow_of_no_slot {tbl : Tbl} (f : ν → Nat → ν) {row : AList Sym ν}
+    (hd : (AList.keys row).Nodup) (hs : ∀ P ∈ AList.keys row, slot? fx tbl P = none) :
+    instRow fx tbl f row = row := by
+  unfold instRow
+  have : ∀ e ∈ row, ∀ acc, step fx tbl f acc e = AList.insert e.1 e.2 acc := by
+    intro e he acc
+    unfold step
+    rw [hs e.1 (List.mem_map.mpr ⟨e, he, rfl⟩)]
+  rw [foldl_congr_mem (g := fun acc e => AList.insert e.1 e.2 acc) this]
+  have h := foldl_insert_fresh row ([] : AList Sym ν) (by simpa using hd)
+  simpa using h
+
+theorem lookup_eff_none_of_no_slot {κ : Type} {tbl : Tbl} {d : AList κ (AList Sym ν)}
+    (hs : ∀ e ∈ d, ∀ P ∈ AList.keys e.2, slot? Fix.repaired tbl P = none) (τ : Ty) :
+    AList.lookup τ (eff tbl d) = none := by
+  unfold eff
+  rw [lookup_restrict]
+  by_cases hm : τ ∈ slotTys d
+  · rw [if_pos hm]
+    unfold slotTys at hm
+    obtain ⟨e, he, hm⟩ := List.mem_flatMap.mp hm
+    obtain ⟨Q, hQ, rfl⟩ := List.mem_map.mp hm
+    obtain ⟨hQk, hQs⟩ := List.mem_filter.mp hQ
+    unfold slotLike at hQs
+    simp only [Bool.and_eq_true, decide_eq_true_eq] at hQs
+    rcases slot?_none (hs e he Q hQk) with h | h | ⟨_, h⟩
+    · exact absurd hQs.1 h
+    · exact h
+    · exact absurd hQs.2 h
+  · rw [if_neg hm]
+
+theorem grammarWF_of_no_slot {κ : Type} {tbl : Tbl} {d : AList κ (AList Sym ν)}
+    (hd : ∀ e ∈ d, (AList.keys e.2).Nodup)
+    (hs : ∀ e ∈ d, ∀ P ∈ AList.keys e.2, slot? Fix.repaired tbl P = none) :
+    grammarWF tbl d = true := by
+  unfold grammarWF rulesWF
+  rw [List.all_eq_true]
+  intro e he
+  unfold rowWF
+  simp only [Bool.and_eq_true, decide_eq_true_eq, List.all_eq_true]
+  refine ⟨hd e he, ?_⟩
+  intro P _
+  unfold keyWF
+  rw [lookup_eff_none_of_no_slot hs P.ty]
+  simp
 
 section det
 variable {S : Type} [DecidableEq S]
@@ -158,6 +220,19 @@ theorem mass_inst_wf (h2 : fx.f2 = true) (h3 : fx.f3 = true) (G : TT S Unit) (ta
   rw [← inst_eff h2 G tbl, ← instTags_eff h2 tbl G.rules tags hT]
   exact mass_inst fx _ G tags (rulesOK_of_grammarWF h2 h3 hG) (rulesOK_of_tagsWF h2 h3 hT)
     (rulesNonEmpty_eff h2 hne) k nt
+
+omit [DecidableEq S] in
+theorem idempotent_wf (G : TT S Unit) (tbl : Tbl)
+    (hd : ∀ e ∈ G.rules, (AList.keys e.2).Nodup)
+    (hs : ∀ e ∈ G.rules, ∀ P ∈ AList.keys e.2, slot? Fix.repaired tbl P = none) :
+    grammarWF tbl G.rules = true ∧ inst Fix.repaired G tbl = G := by
+  refine ⟨grammarWF_of_no_slot hd hs, ?_⟩
+  unfold inst instRules
+  have : G.rules.map (fun e => (e.1, instRow Fix.repaired tbl (fun v _ => v) e.2)) = G.rules := by
+    rw [List.map_congr_left (g := id)
+      (fun e he => by rw [instRow_of_no_slot _ (hd e he) (hs e he)]; rfl)]
+    simp
+  rw [this]
 
 end det
 
